@@ -5,7 +5,9 @@
 //   - node: Visor.CreateTransaction, Visor.WalletCreateTransaction[Signed] and POST
 //     /api/v2/transaction on a real in-process node (lib/node) whose chain really holds the
 //     offered outputs; every returned transaction is completed with the owners' keys and
-//     injected with InjectUserTransaction, which must admit it.
+//     injected with InjectUserTransaction, which must admit it;
+//   - node.pool (poolleg.go): the same entry points with both unconfirmed options while the pool
+//     already spends some of the requested outputs (including double spends inside the pool).
 //
 // Oracle (oracle.go): math/big restatement of the property and of the documentation.
 package main
@@ -480,8 +482,9 @@ func main() {
 
 	// node leg
 	nNode := envInt("C12_NODE", r.Pick(304, 4000))
+	nPool := envInt("C12_POOL", r.Pick(6, 40)) // rounds of 8 groups with a filled unconfirmed pool
 	if nNode > 0 {
-		nodeLeg(r, nNode)
+		nodeLeg(r, nNode, nPool)
 	}
 
 	// samples: the directed cases as the code answered them
@@ -503,7 +506,11 @@ func main() {
 	r.Finish("pure: random offered sets (0-40 outputs, 1-6 owners, boundary-biased coins/hours/ages inside the documented range) x requests by recipe "+
 		"(random, exact-all, exact-top, one-short, one-left, mirror, ...) x manual / auto-share {0,0.000001,1/3,0.5,1,...} x explicit / automatic change; "+
 		"node: the same requests against outputs that really exist on a publisher node's chain, through Visor.CreateTransaction, the wallet variants and POST /api/v2/transaction, "+
-		"then signed and injected; sessions: 2-4 requests by one caller on one offered set who reuses its objects (one *decimal.Decimal share factor, one change-address pointer, "+
+		"then signed and injected; node.pool: rounds of 8 groups of 2-9 confirmed outputs whose unconfirmed pool is first filled by the harness with 0-5 transactions per group spending one / several / all of the group's outputs, "+
+		"most of them conflicting with an earlier pooled transaction (double spends, injected through InjectForeignTransaction), the pool order being that of the transaction hashes; against every such pool both unconfirmed options "+
+		"(IgnoreUnconfirmed false / true) x (explicit output list: all of the group / sub-lists, address list, whole wallet, a wallet spanning all groups) through Visor.CreateTransaction, WalletCreateTransaction[Signed], POST /api/v2/transaction and POST /api/v1/wallet/transaction; "+
+		"the offered set of the oracle is the requested outputs minus (ignoring option) those the harness's own record of the pooled transactions' inputs says are spent; with the failing option a request naming a pool-spent output must be refused; "+
+		"sessions: 2-4 requests by one caller on one offered set who reuses its objects (one *decimal.Decimal share factor, one change-address pointer, "+
 		"one destination array of which each request is a prefix, one offered-outputs map; in the node leg a first request before the main one with the same share factor object and output/address lists), "+
 		"among them 'everything with automatic hours' (the fall-back to 1.0) followed by requests with change; each request is judged by the values the caller set (private copies), and after every call, "+
 		"whatever its outcome, every caller-visible input (Params, the pointed-to share factor and change address, To up to its capacity, offered outputs, UxOuts/Addresses) must equal its pre-call copy. A case is distinct by (leg, outcome, recipe, mode, input/output count bucket, change/extra-input/fall-back/all-spent flags).",
@@ -511,6 +518,7 @@ func main() {
 		"user-level error = transaction.Error, visor.UserError, wallet.Error, blockdb.ErrUnspentNotExist, fee.ErrTxnNoFee, fee.ErrTxnInsufficientCoinHours (the set the HTTP API maps to 400); over HTTP: status 4xx",
 		"allotted amount (auto/share) = floor(share_factor x (input hours - required fee)) per README and the Create doc comment; with the documented forced extra input the allotment may be the one computed before that input was added; without a change output the destinations receive all remaining hours (documented fall-back to 1.0)",
 		"default change address = lexically first address among the owners of the spent outputs (Create doc comment)",
+		"unconfirmed option as documented in src/api/README.md (ignore_unconfirmed): false = an error is returned if any requested / wallet output is spent by a pooled transaction, true = such outputs are not used (and the request is refused with a user-level error if nothing else is left)",
 		"node level: coins are multiples of 0.001 (documented decimal restriction), burn factor and limits are params.UserVerifyTxn",
 	)
 }
@@ -557,6 +565,33 @@ func floors(r *vf.Run) {
 	for _, v := range nodeVias {
 		r.Floor("node.via:"+v, 10)
 	}
+	// pool leg: requests against an unconfirmed pool that spends some of the requested outputs
+	r.Floor("node.pool.requests", 400)
+	r.Floor("node.pool.requests.option:fail", 150)
+	r.Floor("node.pool.requests.option:ignore", 150)
+	for _, s := range poolSelectors {
+		r.Floor("node.pool.requests.selector:"+s, 50)
+	}
+	r.Floor("node.pool.requests.selector:wallet-all-groups", 6)
+	for _, v := range poolViasSel {
+		r.Floor("node.pool.requests.via:"+v, 30)
+	}
+	r.Floor("node.pool.txns", 60)
+	r.Floor("node.pool.txns.conflicting-with-earlier-pool-txn", 25)
+	r.Floor("node.pool.txns.path:foreign", 25)
+	r.Floor("node.pool.txns.spends:one", 10)
+	r.Floor("node.pool.txns.spends:several", 5)
+	r.Floor("node.pool.txns.spends:all", 2)
+	r.Floor("node.pool.requests.spent-in-pool:none", 10)
+	r.Floor("node.pool.requests.spent-in-pool:some", 80)
+	r.Floor("node.pool.requests.spent-in-pool:all", 30)
+	r.Floor("node.pool.requests.requested-output-spent-by-several-pool-txns", 80)
+	r.Floor("node.pool.requests.pool-order:double-spend-then-first-spend-of-another-output", 30)
+	r.Floor("node.pool.refused.fail-option-requested-output-spent-in-pool", 60)
+	r.Floor("node.pool.refused.ignore-option-nothing-left", 20)
+	r.Floor("node.pool.success.ignore-option-some-requested-outputs-spent-in-pool", 30)
+	r.Floor("node.pool.success.pool-does-not-touch-request", 10)
+	r.Floor("node.pool.caller-inputs-compared", 400)
 }
 
 // helpers shared with the node leg
